@@ -139,6 +139,10 @@ def gen_recipes(rng, n):
                     i = rng.randint(0, len(f))
                     if not (i > 0 and f[i - 1] == '~'):
                         f = f[:i] + '*' + f[i:]
+            if any(ch in f for ch in '?*'):
+                # with a wildcard the find text becomes a regular expression as it stands (known class search_wildcard_regex_special); ( and + can make it an
+                # INVALID one, for which Python raises re.error - the Gallina engine does not model invalid expressions
+                f = f.replace('(', '').replace('+', '')
             s = rng.choice([None, None, 1, rng.randint(-1, len(w) + 2)])
             if via == 'formula' and (w == '' or f == '' or w.startswith('=') or f.startswith('=') or w != w.strip() or (s is not None and s < 0)):
                 via = 'direct'
